@@ -90,6 +90,10 @@ static sqf::runtime::runtime::result execute_do(sqf::runtime::runtime& runtime, 
             // Readd return value of frame if it had one
             if (val.has_value())
             { context_active.push_value(val.value()); }
+            // A finished block always hands exactly one value to its caller: nil
+            // if its last statement produced none (e.g. ended in an assignment).
+            else if (!context_active.empty())
+            { context_active.push_value({}); }
 #ifdef SQFVM_RUNTIME_VERIF
             sqf::runtime::verif::observe(sqf::runtime::verif::obs::frame_done, runtime, val.has_value() ? 1 : 0);
 #endif
